@@ -18,8 +18,12 @@ import (
 var lifeAlphabet = map[string]bool{
 	"StubCall": true, "CtxEnd": true, "StubRet": true, "CallServed": true, "CloseCall": true, "CloseReturned": true,
 	"SenderExit": true, "ReceiverExit": true, "Quiescent": true, "MustServe": true,
-	"HAccept": true, "SrvAccept": true, "MetadataExpected": true, "MetadataDone": true,
+	"HAccept": true, "SrvAccept": true, "MetadataExpected": true, "MetadataDone": true, "Routers": true,
 }
+
+// the FIFO monitor's alphabet, for the C03 scenarios
+var lifeFifoAlphabet = map[string]bool{"StubCall": true, "StubRet": true, "HandOffWait": true, "CtxEnd": true, "HStart": true,
+	"HRelease": true, "HReturn": true}
 
 // cmdLife1 runs one lifecycle scenario in this process and writes its events.
 func cmdLife1(args []string) error {
@@ -53,8 +57,12 @@ func cmdLife1(args []string) error {
 		hdr["infeasible"] = err.Error()
 	}
 	w.WriteRaw(hdr)
+	alphabet := lifeAlphabet
+	if *prop == "C03" {
+		alphabet = lifeFifoAlphabet
+	}
 	for _, e := range events {
-		if lifeAlphabet[e.Ev] || os.Getenv("VERIF_ALLEV") != "" {
+		if alphabet[e.Ev] || os.Getenv("VERIF_ALLEV") != "" {
 			if e.Ev == "CloseReturned" {
 				if _, ok := e.F["panicked"]; !ok {
 					e.F["panicked"] = false
